@@ -707,13 +707,15 @@ def div_states(r, n, ctrl, anc, tg, bits):
 
 
 def div_case(r, gate, p, use="append", ctor="positional", ktype="int", cstype="str", style="flat", order="cati",
-             qform="int", n_idle=None):
+             qform="int", n_idle=None, flagtype="bool"):
     roles = div_roles(gate, p)
     if n_idle is None:
         n_idle = 0 if style == "natural" or (p.get("ao") and len(roles) >= 8) else (1 if len(roles) >= 7 else 2)
     host, place = div_host(r, roles, style, order, n_idle)
     case = {"gate": gate, "p": p, "use": use, "ctor": ctor, "ktype": ktype, "cstype": cstype, "style": style,
             "order": order, "qform": qform, "host": host, "place": place, "seed": r.getrandbits(31)}
+    if flagtype != "bool":
+        case["flagtype"] = flagtype
     wires, n = div_wires(case)
     if use == "copy":
         # the copy goes onto a different qubit list: controls rotated by one (k >= 2), else targets / whole list reversed
@@ -733,7 +735,7 @@ def div_key(case):
         head = (f"div:{case['gate']}:k={p['k']}:t={p.get('t', 1)}:cs={p.get('cs')}:rp={int(p.get('rp', False))}:"
                 f"ao={int(p.get('ao', False))}")
     return (f"{head}:{case['use']}:{case['ctor']}:{case['ktype']}/{case['cstype']}:{case['style']}/{case['order']}:"
-            f"{case['qform']}:{case.get('cform', '-')}")
+            f"{case['qform']}:{case.get('cform', '-')}" + (":flags=" + case["flagtype"] if case.get("flagtype") else ""))
 
 
 def div_make_gate(case):
@@ -748,13 +750,16 @@ def div_make_gate(case):
     k = conv(p["k"])
     cs = p.get("cs")
     if cs is not None:
-        cs = {"str": str, "list": list, "tuple": tuple, "int": lambda s: int(s, 2)}[case["cstype"]](cs)
+        cs = {"str": str, "list": list, "tuple": tuple, "int": lambda s: int(s, 2),
+              "np.int64": lambda s: np.int64(int(s, 2))}[case["cstype"]](cs)
+    # a flag that is truthy / falsy without being the singleton True / False (what a numpy comparison or an int gives)
+    flag = {"bool": bool, "np.bool_": np.bool_, "int": int}[case.get("flagtype", "bool")]
     if case["gate"] == "vchain":
         t = conv(p["t"])
         if ctor == "positional":
-            return McxVchainDirty(k, t, cs, p["rp"], p["ao"])
+            return McxVchainDirty(k, t, cs, flag(p["rp"]), flag(p["ao"]))
         if ctor == "keyword":
-            return McxVchainDirty(action_only=p["ao"], relative_phase=p["rp"], ctrl_state=cs, num_target_qubit=t,
+            return McxVchainDirty(action_only=flag(p["ao"]), relative_phase=flag(p["rp"]), ctrl_state=cs, num_target_qubit=t,
                                   num_controls=k)
         kw = {}
         if p["t"] != 1:
@@ -762,19 +767,19 @@ def div_make_gate(case):
         if cs is not None:
             kw["ctrl_state"] = cs
         if p["rp"]:
-            kw["relative_phase"] = True
+            kw["relative_phase"] = flag(True)
         if p["ao"]:
-            kw["action_only"] = True
+            kw["action_only"] = flag(True)
         return McxVchainDirty(k, **kw)
     if ctor == "positional":
-        return LinearMcx(k, cs, p["ao"])
+        return LinearMcx(k, cs, flag(p["ao"]))
     if ctor == "keyword":
-        return LinearMcx(action_only=p["ao"], ctrl_state=cs, num_controls=k)
+        return LinearMcx(action_only=flag(p["ao"]), ctrl_state=cs, num_controls=k)
     kw = {}
     if cs is not None:
         kw["ctrl_state"] = cs
     if p["ao"]:
-        kw["action_only"] = True
+        kw["action_only"] = flag(True)
     return LinearMcx(k, **kw)
 
 
@@ -1329,6 +1334,28 @@ def diversity_cases(ctx):
         cases.append(div_case(r, gate, p, ktype="np.int64"))
         ctx.count("diversity:types:ctrl_state int")
         cases.append(div_case(r, gate, p, cstype="int"))
+    # integer control states at the ends of the range (0 = all-open is falsy!) and in the middle, python and numpy ints
+    for cstype in ("int", "np.int64"):
+        for k in (1, 2, 3, 4, 5):
+            for cs in ("0" * k, "1" * k, ("01" * k)[:k]):
+                ctx.count("diversity:types:ctrl_state " + cstype + " all-zeros / all-ones / alternating")
+                cases.append(div_case(r, "vchain", dict(k=k, t=1 + (k % 2), cs=cs, rp=False, ao=False), cstype=cstype,
+                                      ctor=DIV_CTORS[(k + len(cs.strip("0"))) % 3]))
+                cases.append(div_case(r, "linear", dict(k=k + 2, cs=(cs * 3)[:k + 2], ao=False), cstype=cstype,
+                                      ctor=DIV_CTORS[(k + 1 + len(cs.strip("0"))) % 3]))
+    # relative_phase / action_only given as numpy.bool_ or int, every constructor spelling, sizes on both sides of k = 3
+    for flagtype in ("np.bool_", "int"):
+        for ctor in DIV_CTORS:
+            for k in (2, 3, 4, 5):
+                ctx.count("diversity:types:flags " + flagtype)
+                cases.append(div_case(r, "vchain", dict(k=k, t=1, cs=None if k % 2 else ("10" * k)[:k], rp=True, ao=False),
+                                      ctor=ctor, flagtype=flagtype))
+                cases.append(div_case(r, "vchain", dict(k=k, t=1 + (k % 2), cs=None, rp=False, ao=False), ctor=ctor,
+                                      flagtype=flagtype))
+            cases.append(div_case(r, "vchain", dict(k=4, t=1, cs=None, rp=False, ao=True), use="ao-structure", ctor=ctor,
+                                  flagtype=flagtype))
+            cases.append(div_case(r, "linear", dict(k=6, cs="011010", ao=False), ctor=ctor, flagtype=flagtype))
+            cases.append(div_case(r, "linear", dict(k=6, cs=None, ao=True), use="bracket", ctor=ctor, flagtype=flagtype))
     for cstype in ("list", "tuple"):
         for gate, p in (("vchain", dict(k=4, t=1, cs="0100", rp=False, ao=False)), ("vchain", dict(k=3, t=1, cs="110", rp=True, ao=False)),
                         ("vchain", dict(k=2, t=3, cs="01", rp=False, ao=False)), ("linear", dict(k=6, cs="110100", ao=False)),
